@@ -318,6 +318,87 @@ def g5_configuration_inherited(cls):
     return findings
 
 
+def g6_error_by_difference_of_squares(fn):
+    """An error / residual norm obtained as sqrt(|a^2 - b^2|) and then compared with a tolerance: the subtraction cancels,
+    the result has an absolute accuracy of about sqrt(eps)*|a| and cannot resolve tolerances below 1e-8 relative."""
+    findings = []
+    tol_compared = set()
+    for n in ast.walk(fn):
+        if isinstance(n, ast.Compare):
+            names = _names(n)
+            if any('tol' in x.lower() for x in names):
+                tol_compared |= names
+    for s in own_nodes(fn):
+        if not (isinstance(s, ast.Assign) and len(s.targets) == 1 and isinstance(s.targets[0], ast.Name)):
+            continue
+        if s.targets[0].id not in tol_compared:
+            continue
+        for c in ast.walk(s.value):
+            if isinstance(c, ast.Call) and (call_name(c) or '').split('.')[-1] == 'sqrt' and c.args:
+                a = c.args[0]
+                while isinstance(a, ast.Call) and (call_name(a) or '').split('.')[-1] in ('abs', 'fabs', 'maximum', 'max') and a.args:
+                    a = a.args[0] if not (isinstance(a.args[0], ast.Constant)) else a.args[-1]
+                if isinstance(a, ast.BinOp) and isinstance(a.op, ast.Sub):
+                    def squared(x):
+                        return any(isinstance(p, ast.BinOp) and isinstance(p.op, ast.Pow) and isinstance(p.right, ast.Constant) and p.right.value == 2
+                                   for p in ast.walk(x))
+                    if squared(a.left) and squared(a.right):
+                        findings.append(('G6', s, '`%s` obtains the quantity tested against the tolerance as the square root of a difference of squares: '
+                                                  'the subtraction cancels, so values below about 1e-8 of the operands are noise and tolerances such as the '
+                                                  'default 1e-12 can never be met (the stop test does not fire, the recorded history is meaningless)' % src(s)[:90]))
+    return findings
+
+
+TOLERANT_EQ_NAMES = {
+    # class with a tolerance-based __eq__ (np.allclose) -> the names its instances carry throughout pyiga (confirmed by reading)
+    'KnotVector': ('kv', 'kv1', 'kv2', 'knotvec', 'knotvector', 'kvs'),
+}
+
+
+def tolerant_eq_classes(prog):
+    out = set()
+    for q, c in prog.classes.items():
+        m = c.methods.get('__eq__')
+        if m is not None and any(isinstance(x, ast.Call) and (call_name(x) or '').split('.')[-1] in ('allclose', 'isclose') for x in ast.walk(m.node)):
+            out.add(c.name)
+    return out
+
+
+def g7_memo_hit_by_tolerant_equality(fn, module_tree, tolerant):
+    """A result is served from a module-level container when `stored == argument`, and the argument is an instance of a
+    class whose __eq__ is a tolerance test: "equal" arguments that differ within the tolerance get each other's results."""
+    findings = []
+    containers = set()
+    for s in module_tree.body:
+        if isinstance(s, ast.Assign) and isinstance(s.value, (ast.List, ast.Dict)) or \
+                (isinstance(s, ast.Assign) and isinstance(s.value, ast.Call) and (call_name(s.value) or '') in ('list', 'dict', 'OrderedDict', 'collections.OrderedDict', 'collections.deque', 'deque')):
+            for t in s.targets:
+                if isinstance(t, ast.Name):
+                    containers.add(t.id)
+    if not containers:
+        return findings
+    names = set()
+    for cname in tolerant:
+        names |= set(TOLERANT_EQ_NAMES.get(cname, ()))
+    params = {a.arg for a in fn.args.args}
+    for loop in [l for l in own_nodes(fn) if isinstance(l, ast.For)]:
+        if not (isinstance(loop.iter, ast.Name) and loop.iter.id in containers):
+            continue
+        targets = _names(loop.target, load_only=False)
+        for iff in [n for n in ast.walk(loop) if isinstance(n, ast.If)]:
+            if not any(isinstance(r, ast.Return) and r.value is not None and (_names(r.value) & targets) for r in ast.walk(iff)):
+                continue
+            for cmp_ in [c for c in ast.walk(iff.test) if isinstance(c, ast.Compare) and len(c.ops) == 1 and isinstance(c.ops[0], ast.Eq)]:
+                sides = [cmp_.left, cmp_.comparators[0]]
+                ids = [s.id for s in sides if isinstance(s, ast.Name)]
+                if len(ids) == 2 and (set(ids) & targets) and (set(ids) & params & names):
+                    p = sorted(set(ids) & params & names)[0]
+                    findings.append(('G7', cmp_, 'results are served from the module-level container %s when `%s`; `%s` is a %s, whose __eq__ is a tolerance '
+                                                 'test (np.allclose): an argument that differs from an earlier one within the tolerance receives the result '
+                                                 'computed for the earlier one' % (loop.iter.id, src(cmp_), p, sorted(tolerant)[0])))
+    return findings
+
+
 def run(ctx, rule):
     """Apply the detectors to every function (and class) in the property's scope (reference/scope.json)."""
     import fnmatch
@@ -329,16 +410,21 @@ def run(ctx, rule):
         return
     n = sites = 0
     classes = set()
+    tolerant = tolerant_eq_classes(ctx.prog)
     for q, f in sorted(ctx.prog.functions.items()):
         if not any(fnmatch.fnmatchcase(q, pat) for pat in scope):
             continue
         n += 1
+        if tolerant and f.unit.lang == 'py':
+            for kind, node, msg in g7_memo_hit_by_tolerant_equality(f.node, f.unit.tree, tolerant):
+                ctx.violated(rule, f.qual, '%s memo discipline: %s' % (kind, src(node)[:80]), node, msg)
         sites += len(memo_sites(f.node))
         if f.cls is not None:
             classes.add(f.cls.qual)
-        for det in (g1_stale_after_miss, g2_underkeyed, g4_rebound_parameter_forwarded):
+        for det in (g1_stale_after_miss, g2_underkeyed, g4_rebound_parameter_forwarded, g6_error_by_difference_of_squares):
             for kind, node, msg in det(f.node):
-                ctx.violated(rule, f.qual, '%s %s: %s' % (kind, 'option forwarding' if kind == 'G4' else 'memo discipline', src(node)[:80]), node, msg)
+                what = {'G4': 'option forwarding', 'G6': 'error estimate'}.get(kind, 'memo discipline')
+                ctx.violated(rule, f.qual, '%s %s: %s' % (kind, what, src(node)[:80]), node, msg)
     for cq in sorted(classes):
         c = ctx.prog.classes.get(cq)
         if c is None:
